@@ -7,7 +7,7 @@
 (* implementation returned what the specification computes, at every step. *)
 (* Several runs may be concatenated; a "reset" record starts a new one.    *)
 (***************************************************************************)
-EXTENDS Kv, Json, IOUtils
+EXTENDS KvDispatch, Json, IOUtils
 
 Rec == ndJsonDeserialize(IOEnv.TRACE)
 
@@ -18,7 +18,6 @@ vars == <<kvVars, l>>
 TraceInit == Init /\ l = 1
 
 Ev(e) == l <= Len(Rec) /\ Rec[l].e = e /\ l' = l + 1
-R == Rec[l]
 
 TReset ==
   /\ Ev("reset")
@@ -31,52 +30,8 @@ TNote == Ev("note") /\ UNCHANGED kvVars
 TraceNext ==
   \/ TReset
   \/ TNote
-  \/ Ev("bw")      /\ BeginWrite(R.r)
-  \/ Ev("dur")     /\ SetDurability(R.d, R.r)
-  \/ Ev("cbegin")  /\ CommitBegin
-  \/ Ev("cend")    /\ CommitEnd(R.r)
-  \/ Ev("abort")   /\ Abort(R.r)
-  \/ Ev("br")      /\ BeginRead(R.h, R.r)
-  \/ Ev("dr")      /\ DropRead(R.h)
-  \/ Ev("open")    /\ OpenW(R.n, R.kind, R.kt, R.vt, R.r)
-  \/ Ev("close")   /\ CloseW(R.n)
-  \/ Ev("ropen")   /\ OpenR(R.h, R.n, R.kind, R.kt, R.vt, R.r)
-  \/ Ev("rename")  /\ Rename(R.a, R.b, R.kind, R.r)
-  \/ Ev("delete")  /\ Delete(R.a, R.kind, R.r)
-  \/ Ev("list")    /\ List(R.src, R.kind, R.r)
-  \/ Ev("get")     /\ Get(R.src, R.n, R.k, R.r)
-  \/ Ev("len")     /\ LenOp(R.src, R.n, R.r)
-  \/ Ev("edge")    /\ Edge(R.src, R.n, R.last, R.r)
-  \/ Ev("range")   /\ RangeOp(R.src, R.n, R.lo, R.hi, R.cnt, R.rev, R.alt, R.r)
-  \/ Ev("ins")     /\ Insert(R.n, R.k, R.v, R.r)
-  \/ Ev("insr")    /\ InsertReserve(R.n, R.k, R.v, R.r)
-  \/ Ev("getmut")  /\ GetMut(R.n, R.k, R.v, R.r)
-  \/ Ev("entry")   /\ EntryOp(R.n, R.k, R.v, R.variant, R.r)
-  \/ Ev("rem")     /\ Remove(R.n, R.k, R.r)
-  \/ Ev("pop")     /\ Pop(R.n, R.last, R.r)
-  \/ Ev("retain")  /\ Retain(R.n, R.lo, R.hi, R.p, R.r)
-  \/ Ev("extract") /\ Extract(R.n, R.lo, R.hi, R.p, R.cnt, R.rev, R.alt, R.r)
-  \/ Ev("mins")    /\ MInsert(R.n, R.k, R.v, R.r)
-  \/ Ev("mrem")    /\ MRemove(R.n, R.k, R.v, R.r)
-  \/ Ev("mremall") /\ MRemoveAll(R.n, R.k, R.r)
-  \/ Ev("mget")    /\ MGet(R.src, R.n, R.k, R.r)
-  \/ Ev("mrange")  /\ MRange(R.src, R.n, R.lo, R.hi, R.rev, R.r)
-  \/ Ev("hold")    /\ Hold(R.it, R.src, R.n, R.lo, R.hi)
-  \/ Ev("itnext")  /\ ItNext(R.it, R.cnt, R.rev, R.r)
-  \/ Ev("itdrop")  /\ ItDrop(R.it)
-  \/ Ev("spe")     /\ EphSavepoint(R.s, R.r)
-  \/ Ev("spdrop")  /\ EphDrop(R.s)
-  \/ Ev("spp")     /\ PersSavepoint(R.r)
-  \/ Ev("spdel")   /\ DeletePersSavepoint(R.id, R.r)
-  \/ Ev("splist")  /\ ListPersSavepoints(R.r)
-  \/ Ev("spreste") /\ RestoreEph(R.s, R.r)
-  \/ Ev("sprestp") /\ RestorePers(R.id, R.r)
-  \/ Ev("compact") /\ Compact(R.r)
-  \/ Ev("integrity") /\ CheckIntegrity(R.r)
-  \/ Ev("reopen")  /\ Reopen(R.obs)
-  \/ Ev("crash")   /\ Crash(R.obs)
-  \/ Ev("probe")   /\ CrashProbe(R.obs)
-  \/ Ev("dump")    /\ Dump(R.src, R.obs)
+  \/ /\ l <= Len(Rec) /\ l' = l + 1
+     /\ Do(Rec[l])
 
 TraceSpec == TraceInit /\ [][TraceNext]_vars
 
